@@ -26,6 +26,7 @@ func C12(c *core.Ctx) {
 		"B-DET2: no call to clock, randomness, environment, cwd, hostname, pid, filepath.Abs and no %p format anywhere in the module. " +
 		"B-DET3: string-level taint from the schema file path (DoFile argument, QualifiedFileName results) reaches no Emitter print, no identifier " +
 		"synthesis and no code-model field except through filepath.Base. " +
+		"B-PARENT: every schema handed to addFile/newSchemaGenerator as the parent of further references carries the qualified file name (first result of QualifiedFileName), so nested relative references do not depend on the working directory. " +
 		"Decided: the module's own sources of order/ambient dependence. Not decided: iteration order inside third-party libraries (mergo, litter, goccy), byte equality itself."
 	c.Trust("sort.Strings/sort.Slice sort; third-party libraries (mergo, litter, goccy/go-yaml, cobra) are deterministic",
 		"goccy/go-yaml rejects mappings whose keys coincide after stringification (reproduced during triage)")
@@ -72,6 +73,9 @@ func C12(c *core.Ctx) {
 	for _, s := range t.Sinks {
 		c.Fail("B-DET3", c.Prog.FuncName(s.Fn), s.What, s.Pos, "the schema file path (directory included) is "+s.What+": moving the schema directory changes the output", nil)
 	}
+	// a referenced file is registered under its QUALIFIED name, so the references inside it resolve against the file that contains
+	// them and not against the directory the process happens to run in
+	emit(c, a.ParentPath())
 	c.Floor("B-DET3:sources", len(t.Sources), 2, "file-path taint sources")
 	c.Floor("B-DET3:sanitiser", t.Sanitise, 1, "filepath.Base applications on the tainted path")
 	controls(c, "C12")
